@@ -166,6 +166,7 @@ class Env:
         self.stop_waits = []      # condition-variable waits of stop() that establish insideLoopBody == false
         self.counts = {R1: 0, R2: 0, R3: 0, R4: 0, R5: 0, R6: 0}
         self.launch_kinds = set()
+        self.indeterminate_flags = set()   # flags a user-provided AsyncLoopData constructor default-initialises (no value)
         self.locks_published = []   # (node, path) where the loop thread acquires runningMutex while insideLoopBody is published
         self.dtor_locked_blocks = set()   # blocks of the destructor's own CFG entered with runningMutex held
 
@@ -1827,12 +1828,21 @@ def initial_flag_value(E, name):
         g = tu.cfg(c)
         if g is None or c.get('ctor') != 'default':
             continue
+        prev = None
         for b, i, e in g.elements():
             if e[0] == 'I' and e[3] == name:
                 fd = tu.node(e[2])
                 lits = [x for x in tu.walk(fd) if x.get('kind') == 'CXXBoolLiteralExpr'] if fd is not None else []
+                if not lits and prev is not None and prev[0] == 'S':
+                    # no default member initialiser: the value comes from the constructor's own initialiser (the element before)
+                    pn = tu.node(prev[1])
+                    lits = [x for x in tu.walk(pn) if x.get('kind') == 'CXXBoolLiteralExpr'] if pn is not None else []
+                    if not lits and pn is not None and pn.get('kind') == 'CXXConstructExpr' and not tu.kids(pn) and \
+                            not c.get('implicit') and tu.body(c) is not None:
+                        E.indeterminate_flags.add(name)     # atomic() of C++11..17 leaves the value indeterminate
                 if len(lits) == 1:
                     val = bool(lits[0].get('value'))
+            prev = e
     return val
 
 
@@ -2214,6 +2224,25 @@ def check_initial(E):
     else:
         ctx.violation(R3, inst, 'threadShouldBeAlive is initialised to false: the loop thread leaves its loop immediately and start() '
                       'never runs the body', FILE, key='%s|%s|AsyncLoopData|alive-initially-false' % (R3, FILE))
+    # the other two flags: a value the constructor does not give is indeterminate (a user-provided constructor also switches off the
+    # zero-initialisation that make_shared<AsyncLoopData>() performs for an implicit one)
+    for fl in (RUN, INSIDE):
+        if E.packed is not None:
+            break
+        E.count(R3)
+        inst = 'AsyncLoopData::%s initial value [%s]' % (fl[1], tu.config)
+        v = initial_flag_value(E, fl[1])
+        if fl[1] in E.indeterminate_flags:
+            ctx.violation(R3, inst, '%s has no default member initialiser and the user-provided constructor of AsyncLoopData does '
+                          'not initialise it: a default-constructed std::atomic<bool> holds an indeterminate value, so a loop that '
+                          'was never started can find %s set - the body runs before start() / stop() waits for a body that is not '
+                          'running' % (fl[1], fl[1]), FILE, key='%s|%s|AsyncLoopData|%s-indeterminate' % (R3, FILE, fl[1]))
+        elif v is False:
+            ctx.ok(R3, inst, 'initialised to false', FILE)
+        elif v is True and fl == RUN:
+            ctx.ok(R3, inst, 'initialised to true (a new loop runs at once; whether that is intended is not this rule)', FILE)
+        else:
+            ctx.undecided(R3, inst, 'initial value of %s not found as a boolean literal initialiser' % fl[1], FILE)
 
 
 # ======================================================================================================
